@@ -58,12 +58,13 @@ type B struct {
 	refusedOn     map[int]int  // label -> generation on which its resume was refused
 	holdClose     map[int]bool // labels whose close responses are withheld until ReleaseClose
 	heldCloses    map[int][]func()
-	heldAcks      []func()        // acknowledgements of upstream chunks withheld while NoAnswer("chunk")
-	conflictLeft  map[int]int     // label -> how many more of its resume requests are answered RESUME_REQUEST_CONFLICT
-	conflictDef   int             // default for labels not yet in conflictLeft
-	conflicted    map[int]int     // label -> conflict answers given so far
-	conflictsOn   map[[2]int]int  // (label, generation) -> conflict answers given on that wire connection
-	noAnswer      map[string]bool // kinds never answered (pending calls / metadata)
+	closeCodes    map[int]message.ResultCode // label -> result code of the answers to its close requests
+	heldAcks      []func()                   // acknowledgements of upstream chunks withheld while NoAnswer("chunk")
+	conflictLeft  map[int]int                // label -> how many more of its resume requests are answered RESUME_REQUEST_CONFLICT
+	conflictDef   int                        // default for labels not yet in conflictLeft
+	conflicted    map[int]int                // label -> conflict answers given so far
+	conflictsOn   map[[2]int]int             // (label, generation) -> conflict answers given on that wire connection
+	noAnswer      map[string]bool            // kinds never answered (pending calls / metadata)
 	DialDelay     atomic.Int64
 	DialRefuse    atomic.Int32 // refuse this many dials outright (no transport)
 	WriteDelay    atomic.Int64 // slow-return Write knob for every new link
@@ -327,7 +328,10 @@ func (b *B) handle(s *broker.Session, m message.Message) {
 			s.Link.Sever(memtr.Loud)
 			return
 		}
-		b.answerClose(label, func() { s.Send(&message.UpstreamCloseResponse{RequestID: v.RequestID, ResultCode: ok}) })
+		code := b.closeCode(label)
+		b.answerClose(label, func() {
+			s.Send(&message.UpstreamCloseResponse{RequestID: v.RequestID, ResultCode: code, ResultString: "close answer"})
+		})
 	case *message.DownstreamCloseRequest:
 		b.mu.Lock()
 		label := -1
@@ -339,7 +343,10 @@ func (b *B) handle(s *broker.Session, m message.Message) {
 			s.Link.Sever(memtr.Loud)
 			return
 		}
-		b.answerClose(label, func() { s.Send(&message.DownstreamCloseResponse{RequestID: v.RequestID, ResultCode: ok}) })
+		code := b.closeCode(label)
+		b.answerClose(label, func() {
+			s.Send(&message.DownstreamCloseResponse{RequestID: v.RequestID, ResultCode: code, ResultString: "close answer"})
+		})
 	case *message.UpstreamMetadata:
 		label := -1
 		if bt, isbt := v.Metadata.(*message.BaseTime); isbt {
@@ -560,4 +567,23 @@ func (b *B) ConflictsOn(label, gen int) int {
 	b.mu.Lock()
 	defer b.mu.Unlock()
 	return b.conflictsOn[[2]int{label, gen}]
+}
+
+// RefuseClose makes the broker answer every close request of the stream with the given failure code.
+func (b *B) RefuseClose(label int, code message.ResultCode) {
+	b.mu.Lock()
+	if b.closeCodes == nil {
+		b.closeCodes = map[int]message.ResultCode{}
+	}
+	b.closeCodes[label] = code
+	b.mu.Unlock()
+}
+
+func (b *B) closeCode(label int) message.ResultCode {
+	b.mu.Lock()
+	defer b.mu.Unlock()
+	if c, ok := b.closeCodes[label]; ok {
+		return c
+	}
+	return message.ResultCodeSucceeded
 }
